@@ -268,7 +268,7 @@ def groups(tier):
     perms5 = list(itertools.permutations(range(5))) if tier == "thorough" else [(0, 1, 2, 3, 4), (4, 3, 2, 1, 0), (0, 2, 4, 1, 3), (0, 3, 1, 4, 2), (2, 0, 3, 1, 4), (1, 4, 0, 3, 2), (3, 1, 4, 0, 2), (2, 4, 1, 0, 3)]
     for perm in perms5:
         gs.append(Group("vertex sort[n=5, input order %s]" % "".join(map(str, perm)), sort_harness(5, perm), [PGM + "_check_and_sort_points"], stubs=sort_stubs,
-                        world="FRAME", timeout_s=1200, prove_ms=30000, expect_hits=["Vector.__mul__[frame coordinate]"]))
+                        world="FRAME", timeout_s=900, prove_ms=30000, expect_hits=["Vector.__mul__[frame coordinate]"]))  # (15 of the 120 orders - all starting with vertex 4 - are not decided within this limit: listed as undecided in the thorough tier)
     gs.append(Group("frame lemma (Binet-Cauchy)", h_frame_lemma, ["spec:in-plane frame coordinates"], world="COORD", timeout_s=300))
     pats = [(0, 1), (0,), (0, 1, 2), (0, 1, 0), (0, 0, 0), (0, 1, 2, 3), (0, 0, 1, 2), (0, 1, 0, 2), (0, 1, 2, 0), (0, 1, 1, 2), (0, 1, 2, 2), (0, 1, 0, 1), (0, 1, 2, 3, 4), (0, 1, 2, 0, 3), (0, 1, 2, 3, 1)]
     for pat in pats:
